@@ -11,7 +11,7 @@ from ..runner import ok, violation, inconclusive
 
 RULE = ("for a fixed tree and selection the JSON report body (groups, order, path order, lengths, hashes) must be identical "
         "across: repeated runs, 12 --threads specifications (1, 0, 64, main/default/ssd/hdd/unknown pools), permutations of "
-        "the roots, --stdin instead of arguments, CPU affinity 1 or 2 cores (taskset), and seeded jitter at the hook points "
+        "the roots, --stdin instead of arguments, without and (a quarter of the trees) with an external --transform over files that share base names, CPU affinity 1 or 2 cores (taskset), and seeded jitter at the hook points "
         "(H3) inside the hashing tasks and before the result channel; the partition must moreover be identical across the 7 "
         "hash functions, --max-prefix-size / --max-suffix-size, pinned disk kind and cache cold/warm. Every run has a generous "
         "watchdog; a firing is a violation only if the process is provably quiescent (all threads asleep, no CPU progress), "
@@ -84,11 +84,28 @@ def run_case(arg):
                 up = "../" * other.count("/")
                 spec["entries"].append({"t": "l", "p": other + "/zz-link%d" % k, "to": up + "../" + victim["p"] if False else os.path.relpath(victim["p"], other)})
                 spec["entries"].append({"t": "l", "p": other + "/aa-dirlink%d" % k, "to": os.path.relpath(dd_, other)})
+        transform = None
+        if not links_mode and r.random() < 0.25:
+            # an external transform (with and without a temporary copy of the input): many files share a base name
+            # in different directories, so anything keyed by the name alone is shared between concurrent tasks
+            transform = r.choice(["in_cat", "in_cat", "in_head", "cat", "in_out"])
+            per_dir = {}
+            for e in spec["entries"]:
+                if e["t"] == "f":
+                    dn = e["p"].rsplit("/", 1)[0]
+                    k = per_dir.get(dn, 0)
+                    if k < 3:
+                        per_dir[dn] = k + 1
+                        newp = dn + "/same%d.dat" % k
+                        for h in spec["entries"]:
+                            if h["t"] == "h" and h["to"] == e["p"]:
+                                h["to"] = newp
+                        e["p"] = newp
         tree.materialise(spec, troot)
         roots = spec["roots"]
         home = os.path.join(d, "home")
         base = {"follow_links": links_mode, "hash_fn": r.choice(gm.HASH_FNS), "kind": r.choice(gm.KINDS), "max_prefix": None, "max_suffix": None, "threads": None,
-                "cache": None, "transform": None, "match_links": r.random() < 0.2, "rf": r.choice([None, None, ("over", 0), ("unique", None)]),
+                "cache": None, "transform": transform, "match_links": r.random() < 0.2, "rf": r.choice([None, None, ("over", 0), ("unique", None)]),
                 "min0": False}
         out = []
         witness = {"case": i, "spec": spec, "base_opts": base, "fs": fs}
